@@ -500,6 +500,9 @@ func c13SchedBody(t *testing.T, steps int) mc.Body {
 	advances := []time.Duration{9 * time.Second, 10 * time.Second, 25 * time.Second, 60 * time.Second, 61 * time.Second}
 	return func(x *mc.X) mc.Outcome {
 		w := wins[x.Choose(len(wins), "window")]
+		// the process's time zone: UTC, or five hours behind it (the rule stamps its trigger points with the local
+		// clock; windows and weekdays are defined on the UTC date of the instant, whatever zone it is expressed in)
+		zone := x.Choose(2, "time zone of the process")
 		// weekday sets (the clock starts on a Saturday): every day, Saturday, Sunday, Friday
 		wdSets := [][]time.Weekday{nil, {time.Saturday}, {time.Sunday}, {time.Friday}}
 		wdBools := func(ws []time.Weekday) []bool {
@@ -526,6 +529,11 @@ func c13SchedBody(t *testing.T, steps int) mc.Body {
 			cs = append(cs, client.Condition{ConditionType: data.PointValueSchedule, Start: w.s, End: w.e, Weekdays: wdBools(wd2)})
 		}
 		var out mc.Outcome
+		saved := time.Local
+		if zone == 1 {
+			time.Local = time.FixedZone("UTC-5", -5*3600)
+		}
+		defer func() { time.Local = saved }()
 		leak := bubble(t, func() {
 			start := time.Now()
 			// the rule client's select: with several ready cases the first in source order is taken (not a random one)
@@ -614,7 +622,7 @@ func TestC13(t *testing.T) {
 			Rule: "same rule configurations plus the rule without conditions, started with every combination of stored `active` flags of the rule and of each condition (a rule client restarted after its configuration changed: the stored rule flag may disagree with the conditions), with and without a misconfigured action in front of each action list (set-value without point type, unknown action kind: the well-formed actions behind it must still run) x one single-point batch: after the batch the rule is active exactly when all conditions are, and the action list ran iff the rule's state changed"},
 			c13PointsBody(t, 1, false, true))
 		r.Explore(mc.Config{Name: fmt.Sprintf("schedule-conditions-s%d", steps), Serial: true, SplitDepth: 3,
-			Rule: fmt.Sprintf("6 schedule windows around the (virtual) clock start 2000-01-01T00:00:00Z incl. wrap over midnight and start=end, each with weekdays {every day, Saturday (the start day), Sunday, Friday}, alone / AND a number condition / AND a second schedule condition with its own weekdays {every day, Saturday, Sunday} x all sequences of %d operations over {advance 9 s, 10 s, 25 s, 60 s, 61 s, point 4, point 6}; after every operation the publications are compared with the interval model evaluated at each 10 s tick", steps)},
+			Rule: fmt.Sprintf("6 schedule windows around the (virtual) clock start 2000-01-01T00:00:00Z incl. wrap over midnight and start=end, each with weekdays {every day, Saturday (the start day), Sunday, Friday}, alone / AND a number condition / AND a second schedule condition with its own weekdays {every day, Saturday, Sunday}, process time zone UTC or UTC-5 x all sequences of %d operations over {advance 9 s, 10 s, 25 s, 60 s, 61 s, point 4, point 6}; after every operation the publications are compared with the interval model evaluated at each 10 s tick", steps)},
 			c13SchedBody(t, steps))
 		r.Assume("the rule sees what the store rebroadcasts: up.<parent>.<node> messages (C06); condition key filters compare raw keys, so the alphabet avoids the \"\" / \"0\" aliases")
 		r.Assume("goroutine interleavings inside one synctest step are left to the Go runtime; the rule client is a single select loop")
